@@ -107,6 +107,9 @@ class Check:
             cov['samples'] = ['(no sample recorded)']
         if cov['distinct_nontrivial'] < 2 and self.level in ('exploration', 'fault_enumeration'):
             pass
+        if self.level != 'model_checking' and not cov.get('states'):
+            for k in ('states', 'transitions'):
+                cov.pop(k, None)
         cov.update({k: v for k, v in self.notes.items()})
         cov['known_findings_printed'] = sorted(self.kf_hits)
         ev = {'property_id': self.prop, 'tier': self.tier, 'seed': self.seed, 'level': self.level, 'coverage': cov,
